@@ -339,26 +339,38 @@ def r09_3(cx):
 
 
 def r09_4(cx):
-    """mode plumbing"""
-    b, calls = imp_calls(cx, FIND, FIND_IMP)
-    inp = param_of_type(b, r'util::search::Input<')
-    autp = param_at(b, 1)
-    ag = bool_gates(b, lambda x: is_call(x, r'Anchored::is_anchored$') and is_call(peel(expand_vars(b, x[2][0])), r'Input::get_anchored$') and peel(peel(expand_vars(b, x[2][0]))[2][0]) == inp)
-    t_edges = [e for g in ag for e in g[2]]
-    f_edges = [e for g in ag for e in g[3]]
-    for i, (bi, ct) in enumerate(calls):
-        a = ct[2][3]
-        if is_agg(a, r'Anchored$', 'Yes'):
-            ok = bool(ag) and not reachable_without(b, [bi], t_edges)
-            what = 'Anchored::Yes only on the anchored edge'
-        elif is_agg(a, r'Anchored$', 'No'):
-            ok = bool(ag) and not reachable_without(b, [bi], f_edges)
-            what = 'Anchored::No only on the unanchored edge'
-        else:
-            ok = is_call(a, r'Input::get_anchored$') and peel(a[2][0]) == inp
-            what = 'mode = input.get_anchored()'
-        okargs = peel(ct[2][0]) == autp and peel(ct[2][1]) == inp
-        cx.report('R09.4', b, 'mode@%d' % i, ok and okargs, what if ok and okargs else 'the anchoring mode / aut / input handed to try_find_fwd_imp does not follow the request: %s' % tstr(ct, 200), line_of(b, bi))
+    """mode plumbing, on the path summaries of try_find_fwd: the anchoring mode handed to the driver is Anchored::Yes only on paths
+    that decided input.get_anchored().is_anchored(), Anchored::No only on paths that decided its negation, or the input's own mode;
+    aut and input are passed through"""
+    from acverif.sym import summarize, canon, cstr
+    b = cx.body(FIND)
+    inp = cstr(param_of_type(b, r'util::search::Input<'))
+    autp = cstr(param_at(b, 1))
+    why = None
+    n = 0
+    for r in summarize(cx.facts, b):
+        cs = [canon(c) for c in r.calls('^' + re.escape(FIND_IMP) + '$')]
+        if not cs:
+            continue
+        n += 1
+        anch = None
+        for c, v in r.conds:
+            cc = canon(c)
+            if is_call(cc, r'Anchored::is_anchored$') and cstr(cc[2][0]) in ('util::search::Input::get_anchored(%s)' % inp, '%s.anchored' % inp):
+                anch = v
+        for ct in cs:
+            a = ct[2][3]
+            if is_agg(a, r'Anchored$', 'Yes'):
+                ok = anch is True
+            elif is_agg(a, r'Anchored$', 'No'):
+                ok = anch is False
+            else:
+                ok = cstr(a) in ('util::search::Input::get_anchored(%s)' % inp, '%s.anchored' % inp)
+            if not ok or cstr(ct[2][0]) != autp or cstr(ct[2][1]) != inp:
+                why = why or 'the anchoring mode / aut / input handed to try_find_fwd_imp does not follow the request: %s' % tstr(ct, 200)
+    if n == 0:
+        why = why or 'no path calls try_find_fwd_imp'
+    cx.report('R09.4', b, 'mode', why is None, 'the driver is specialised to Anchored::Yes only on the anchored paths and to Anchored::No only on the unanchored ones (%d calling paths); aut and input are passed through' % n if why is None else why)
     for path in (FIND_IMP, OVER_IMP):
         d = Driver(cx, path)
         b = d.b
